@@ -42,7 +42,7 @@ counters! {
     pack_runs, pack_not_serialisable_in_shape, pack_in_memory_round_trips_ok,
     pack_wr_acknowledged, pack_wr_failed_honestly, pack_wr_crashed, pack_write_faults_delivered,
     pack_reads_intact_ok, pack_reads_intact_under_terminal_fault, pack_reads_torn_rejected, pack_reads_non_intact_other,
-    pack_read_faults_delivered, pack_buffered_container_shapes,
+    pack_read_faults_delivered, pack_buffered_container_shapes, pack_transient_string_runs, pack_in_place_runs,
     // rare corners
     probe_fault_on_first_write, probe_fault_on_last_write, probe_fault_in_multidigit_fragment,
     probe_eintr_then_hard, probe_short_then_hard, probe_record_at_max_length,
@@ -50,7 +50,7 @@ counters! {
     probe_bufwriter_flush_failure_after_clean_display, probe_max_safe_integer_component,
     probe_fault_between_list_items, probe_sticky_then_bufwriter_drop,
     // bookkeeping
-    known_finding_hits, violations, advisory_reentrancy_observations, advisory_protocol_observations, advisory_robustness_observations,
+    known_finding_hits, violations, advisory_reentrancy_observations, advisory_protocol_observations, advisory_robustness_observations, advisory_format_observations,
 }
 
 #[derive(Clone, Debug)]
